@@ -105,34 +105,6 @@ theorem tr_setAll {w : World} {k : Nat} {o : Obj} (h : ObjInv w k o) (ho : w.obj
 
 /-! ## The bulk alias form -/
 
-theorem aliasConstraints_val (w : World) (i1 i2 : ObjId) (j : ObjId) : val (aliasConstraints w i1 i2).w j = val w j := by
-  have : ∀ (w : World) (i : ObjId) (q : Par) (c : Con), parSetConstraint (w.heap.get i) c = .ok q →
-      ∀ j, ((w.putPar i q).heap.get j).value = (w.heap.get j).value := by
-    intro w i q c hq j
-    simp only [putPar_get]; split
-    · rename_i e; subst e
-      simp only [parSetConstraint] at hq
-      split at hq
-      · cases hq
-      · cases hq; rfl
-    · rfl
-  simp only [aliasConstraints, val]
-  split
-  · rfl
-  · split
-    · rfl
-    · rename_i q hq; exact this w i1 q _ hq j
-  · rfl
-  · split
-    · split
-      · rfl
-      · rename_i q2 hq2
-        split
-        · exact this w i2 q2 _ hq2 j
-        · rename_i q1 hq1
-          rw [this _ i1 q1 _ hq1 j, this w i2 q2 _ hq2 j]
-    · rfl
-
 /-- what a successful pair alias leaves alone: values, names, the object's parameters and its links -/
 structure Grow (k : Nat) (w W : World) : Prop where
   val : ∀ j, val W j = val w j
